@@ -172,7 +172,19 @@ def ev(I, n: ast.AST, st: State) -> Iterator[tuple[State, Any]]:
             if isinstance(vs, Raised):
                 yield s2, vs
             else:
-                yield s2, binop(I, n.op, vs[0], vs[1], s2)
+                a, b = vs
+                # str + Any / Any + str: defined only when the Any operand is a str on this path
+                sv = lambda x: isinstance(x, str) or (V.is_z3(x) and x.sort() == z3.StringSort())  # noqa: E731
+                av = lambda x: V.is_z3(x) and x.sort() == V.Val  # noqa: E731
+                if isinstance(n.op, ast.Add) and ((sv(a) and av(b)) or (av(a) and sv(b))):
+                    anyv = b if av(b) else a
+                    for s3, ok in I.branch(s2, V.is_VStr(anyv)):
+                        if ok:
+                            yield s3, binop(I, n.op, V.Val.s(a) if av(a) else a, V.Val.s(b) if av(b) else b, s3)
+                        else:
+                            yield s3, Raised(SExc("TypeError", note="str + non-str"))
+                    continue
+                yield s2, binop(I, n.op, a, b, s2)
         return
     if isinstance(n, ast.Attribute):
         for s2, o in I.ev(n.value, st):
